@@ -3,6 +3,7 @@ package main
 import (
 	"fmt"
 	"go/ast"
+	"go/token"
 	"go/types"
 	"sort"
 	"strings"
@@ -1328,7 +1329,56 @@ func c05SketchCtors(c *Ctx, rule string) {
 			found = fmt.Sprintf("positive=%v negative=%v", pos, neg)
 			good := func(t *Term) bool {
 				t = stripConv(t)
-				if t == nil || t.Op != "call" || !strings.HasSuffix(t.Sym, "."+storeCtor) {
+				if t == nil {
+					return false
+				}
+				// the store comes from a closure handed to a shared helper: func() Store { return <storeCtor>(limit) } with
+				// the caller's bin limit captured
+				if t.Op == "dyncall" && len(t.Args) >= 1 && t.Args[0].Op == "closure" {
+					mc, _ := t.Args[0].V.(*ssa.MakeClosure)
+					if mc == nil {
+						return false
+					}
+					fn := mc.Fn.(*ssa.Function)
+					if len(fn.Blocks) != 1 {
+						return false
+					}
+					ret, isRet := fn.Blocks[0].Instrs[len(fn.Blocks[0].Instrs)-1].(*ssa.Return)
+					if !isRet || len(ret.Results) != 1 {
+						return false
+					}
+					v := ret.Results[0]
+					if mi, isMI := v.(*ssa.MakeInterface); isMI {
+						v = mi.X
+					}
+					call, isCall := v.(*ssa.Call)
+					if !isCall || call.Common().StaticCallee() == nil || call.Common().StaticCallee().Name() != storeCtor || len(call.Common().Args) > 1 {
+						return false
+					}
+					for _, a := range call.Common().Args {
+						u, isLoad := a.(*ssa.UnOp)
+						if !isLoad || u.Op != token.MUL {
+							return false
+						}
+						fv, isFV := u.X.(*ssa.FreeVar)
+						if !isFV {
+							return false
+						}
+						bound := false
+						for i, x := range fn.FreeVars {
+							if x == fv && i < len(mc.Bindings) {
+								if al, isAl := mc.Bindings[i].(*ssa.Alloc); isAl && len(f.Params) > 1 && singleAssigned(al) == ssa.Value(f.Params[1]) {
+									bound = true
+								}
+							}
+						}
+						if !bound {
+							return false
+						}
+					}
+					return true
+				}
+				if t.Op != "call" || !strings.HasSuffix(t.Sym, "."+storeCtor) {
 					return false
 				}
 				for i, a := range t.Args {
@@ -1338,7 +1388,43 @@ func c05SketchCtors(c *Ctx, rule string) {
 				}
 				return true
 			}
-			ok = pos != nil && neg != nil && good(pos) && good(neg) && !sameVal(pos, neg)
+			ok = pos != nil && neg != nil && good(pos) && good(neg)
+		}
+		// two separate stores: at every call of NewDDSketch (here or in a helper split off the constructor) the two store
+		// arguments are the results of two different calls
+		nNew := 0
+		for _, g := range withNewHelpers(f) {
+			for _, b := range g.Blocks {
+				for _, in := range b.Instrs {
+					call, isCall := in.(*ssa.Call)
+					if !isCall || call.Common().StaticCallee() == nil || call.Common().StaticCallee().Name() != "NewDDSketch" || len(call.Common().Args) != 3 {
+						continue
+					}
+					nNew++
+					strip := func(v ssa.Value) ssa.Value {
+						for {
+							switch x := v.(type) {
+							case *ssa.MakeInterface:
+								v = x.X
+							case *ssa.ChangeInterface:
+								v = x.X
+							default:
+								return v
+							}
+						}
+					}
+					x, y := strip(call.Common().Args[1]), strip(call.Common().Args[2])
+					_, xc := x.(*ssa.Call)
+					_, yc := y.(*ssa.Call)
+					if !xc || !yc || x == y {
+						ok = false
+						found = firstNonEmpty("the two sides are not the results of two separate calls", found)
+					}
+				}
+			}
+		}
+		if nNew == 0 {
+			ok = false
 		}
 		c.R.check(ok, rule, ctor+"/both-sides-same-kind", shortFn(f), c.fpos(f), "NewDDSketch(mapping, "+storeCtor+"(…), "+storeCtor+"(…)) with two separate stores and the caller's bin limit", found)
 	}
